@@ -75,6 +75,7 @@ pub enum UOp {
     OpenWindow { target: u8 },
     TransferOwnership { target: u8, to: u8, auth: AuthVar },
     ViaUpgrader { target: u8, version: VerSel, wasm: WasmSel, cover: Cover, data: MigData, abort: Option<u16> },
+    Advance { dseq: u32 },
     Resubmit { k: u16 },
 }
 
@@ -86,6 +87,7 @@ impl UOp {
             UOp::OpenWindow { .. } => "open_window",
             UOp::TransferOwnership { .. } => "transfer_ownership",
             UOp::ViaUpgrader { .. } => "via_upgrader",
+            UOp::Advance { .. } => "advance",
             UOp::Resubmit { .. } => "resubmit",
         }
     }
@@ -416,6 +418,9 @@ impl UExec {
                 let _ = code_before;
                 ctx.count("probe.upgrader_completed_both_steps");
             }
+            UOp::Advance { dseq } => {
+                crate::common::advance_ledgers(&self.sim, ctx, *dseq);
+            }
             UOp::Resubmit { .. } => {}
         }
     }
@@ -490,6 +495,9 @@ impl World for WorldU {
             };
             let opened = matches!(op, UOp::OpenWindow { .. } | UOp::Upgrade { auth: AuthVar::Right, .. });
             ops.push(op);
+            if rng.chance(1, 10) {
+                ops.push(UOp::Advance { dseq: *rng.pick(&[1u32, 17, 100, 20_000]) });
+            }
             if opened && rng.chance(1, 2) {
                 ops.push(UOp::Migrate { target, data: MigData::Unit, auth: if rng.chance(4, 5) { AuthVar::Right } else { AuthVar::Stranger }, abort: None });
                 if rng.chance(1, 2) {
@@ -559,7 +567,7 @@ impl World for WorldU {
             };
             ctx.trace_str(eff.kind());
             ex.run_op(ctx, &eff);
-            if !matches!(op, UOp::Resubmit { .. }) {
+            if !matches!(op, UOp::Resubmit { .. } | UOp::Advance { .. }) {
                 ex.history.push(op.clone());
             }
             if !ctx.stopped() {
